@@ -387,6 +387,38 @@ def run(facts, R):
                     "the permit is released early / handed away: %s" % moved, wk_.span, "permit is a closure local dropped at scope end")
     R.floor("permit-before-spawn", n_sp, 1, "spawn sites that run a handler off the reader")
 
+    # ---------------- a slot counted by hand is given back on unwind too: a function that takes a slot with fetch_add on an atomic and
+    # returns it with fetch_sub on the same atomic must return it on the panic path as well (an owned permit / a guard's Drop does
+    # that by construction; a plain statement after the handler call does not run when the handler panics, and every panic then
+    # shrinks the cap for good).  Closed over every function of the crate that contains such a pair
+    n_pairs = 0
+    for b_ in facts.bodies.values():
+        adds_ = [(i_, t_) for i_, t_ in b_.calls() if t_["callee"]["name"] == "fetch_add" and "atomic" in t_["callee"]["path"]]
+        subs_ = [(i_, t_) for i_, t_ in b_.calls() if t_["callee"]["name"] == "fetch_sub" and "atomic" in t_["callee"]["path"]]
+        if not adds_ or not subs_:
+            continue
+        sy_ = Sym(b_)
+        for i_, t_ in adds_:
+            tgt_ = render(sy_.op(t_["args"][0]))
+            ev_ = [term_pt(b_, j_) for j_, u_ in subs_ if render(sy_.op(u_["args"][0])) == tgt_]
+            if not ev_ or t_.get("target") is None:
+                continue
+            n_pairs += 1
+            # ... a guard whose Drop does the fetch_sub returns the slot wherever it is dropped
+            for x_ in range(len(b_.blocks)):
+                tt_ = b_.blocks[x_]["term"]
+                if tt_["k"] == "drop" and not tt_["place"]["p"]:
+                    ty_ = b_.local_ty(tt_["place"]["l"]).split("<")[0]
+                    if any(p_.startswith("<" + ty_) and p_.endswith(" as std::ops::Drop>::drop") and any(u_["callee"]["name"] == "fetch_sub" for _, u_ in d_.calls())
+                           for p_, d_ in facts.bodies.items() if "Drop>::drop" in p_):
+                        ev_.append(term_pt(b_, x_))
+            exits_ = [(x_, len(b_.blocks[x_]["stmts"])) for x_ in range(len(b_.blocks)) if b_.blocks[x_]["term"]["k"] == "resume"]
+            wp_ = must_cross(b_, [(t_["target"], 0)], exits_, ev_, unwind=True, after_start=False) if exits_ else None
+            R.check(wp_ is None, "permit-before-spawn", b_.path, "a hand-counted slot is returned on unwind",
+                    "%s takes a slot with %s.fetch_add and gives it back with a plain fetch_sub: a panic in between (the handler it runs) unwinds past the fetch_sub and the slot is "
+                    "never returned - after `limit` panics the route refuses every call" % (b_.path.rsplit("::", 1)[-1], tgt_[:40]), t_.get("span"), "fetch_sub on every unwind path", path=wp_)
+    R.note("hand-counted slot pairs (fetch_add/fetch_sub on one atomic in one function): %d" % n_pairs)
+
     # ---------------- blocking-marker-in-raw: the off-reader marker wraps the leaf handler that is stored as the route's
     # `raw`, so that rebuilding the dispatched slot from `raw` (middleware registered later) keeps the route off-reader
     from analysis.guards import struct_constructions
@@ -431,6 +463,32 @@ def run(facts, R):
             continue
         n_del += 1
         has = "execution" in im["methods"]
+        if not has:
+            # a wrapper that inherits Inline is right when nothing it is ever instantiated over runs off the reader: every concrete inner
+            # type seen anywhere in the crate is a leaf handler that itself inherits Inline (the blocking marker then sits outside it)
+            base_ = im["self_ty"].split("<")[0]
+            inner_ = set()
+            for ob_ in facts.bodies.values():
+                for l_ in range(len(ob_.locals)):
+                    ty_ = ob_.local_ty(l_)
+                    k_ = ty_.find(base_ + "<")
+                    while k_ >= 0:
+                        d_, e_ = 0, k_ + len(base_)
+                        for e_ in range(k_ + len(base_), len(ty_)):
+                            d_ += ty_[e_] == "<"
+                            d_ -= ty_[e_] == ">" and ty_[e_ - 1] != "-"
+                            if d_ == 0:
+                                break
+                        inner_.add(ty_[k_ + len(base_) + 1:e_])
+                        k_ = ty_.find(base_ + "<", e_)
+            leafs_ = {x_["self_ty"].split("<")[0] for x_ in impls if "execution" not in x_["methods"] and x_ is not im}
+            conc_ = {x_ for x_ in inner_ if "::" in x_}
+            if conc_ and all(x_.split("<")[0] in leafs_ and x_.split("<")[0] != base_ for x_ in conc_) and not any(
+                    x_["self_ty"].split("<")[0] in {c_.split("<")[0] for c_ in conc_} and any(
+                        u_["callee"]["decl"].startswith("server::HandlerErased::handle") and render_n(Sym(facts.body(x_["methods"]["handle"])).op(u_["args"][0])).startswith("arg1.")
+                        for _, u_ in facts.body(x_["methods"]["handle"]).calls()) for x_ in impls):
+                R.ok("execution-forwarded", im["methods"]["handle"], "wrapper only ever wraps inline leaf handlers", hb.span, ", ".join(sorted(c_.split("<")[0] for c_ in conc_)))
+                continue
         R.check(has, "execution-forwarded", im["methods"]["handle"], "wrapper overrides execution",
                 "%s wraps another handler but inherits execution() = Inline: a wrapped blocking handler would run on the reader" % im["self_ty"], hb.span, "execution overridden")
         if has:
